@@ -27,6 +27,17 @@ func DecLit(t *rapid.T, label string, forceFrac, forbidFrac bool) string {
 		}
 		return z
 	}
+	// numbers no float64 (and partly no int64) holds exactly: JSight numbers are decimal texts
+	if rapid.IntRange(0, 11).Draw(t, label+"long") == 0 {
+		z := rapid.SampledFrom([]string{"9007199254740993", "-9007199254740993", "9223372036854775807", "-9223372036854775808", "9223372036854775808", "18446744073709551616",
+			"123456789012345678901", "0.12345678901234567891", "-1.00000000000000000001", "9007199254740993.5", "100000000000000000000.000000000000000000001"}).Draw(t, label+"lz")
+		if forbidFrac {
+			z = strings.SplitN(z, ".", 2)[0]
+		} else if forceFrac && !strings.Contains(z, ".") {
+			z += ".5"
+		}
+		return z
+	}
 	neg := rapid.IntRange(0, 3).Draw(t, label+"neg") == 0
 	ni := rapid.IntRange(1, 2).Draw(t, label+"ni")
 	var b strings.Builder
@@ -349,7 +360,23 @@ func orAlternatives(t *rapid.T, n *model.Node, o ScalarOpts, label string) []mod
 	var alts []model.Val
 	for i := 0; i < cnt; i++ {
 		l := fmt.Sprintf("%salt%d", label, i)
-		switch rapid.IntRange(0, 5).Draw(t, l+"k") {
+		k := rapid.IntRange(0, 5).Draw(t, l+"k")
+		if n.Kind == "string" && rapid.IntRange(0, 3).Draw(t, l+"fmt") == 0 {
+			k = 6
+		}
+		switch k {
+		case 6: // a format type, by name or as a rule-set; the example becomes a value of a crisp pool
+			f := rapid.SampledFrom([]string{"date", "datetime", "email", "uri", "uuid"}).Draw(t, l+"f")
+			pool := rules.Pools[f].Valid
+			if rapid.IntRange(0, 3).Draw(t, l+"fbad") == 0 {
+				pool = rules.Pools[f].Invalid
+			}
+			n.Lit = fmt.Sprintf("%q", rapid.SampledFrom(pool).Draw(t, l+"fv"))
+			if rapid.Bool().Draw(t, l+"fset") {
+				alts = append(alts, model.Set(model.R("type", model.Str(f))))
+			} else {
+				alts = append(alts, model.Str(f))
+			}
 		case 5: // a rule-set that is an enum
 			alts = append(alts, model.Set(model.R("type", model.Str("enum")), model.R("enum", model.List(enumItems(t, n.Lit, n.Kind, l)...))))
 		case 0: // rule-set of the example's kind with rules near the example
